@@ -2025,6 +2025,91 @@ def _one_of(node, forms, vars=(), bind=None):
     return any(same_expr(node, f, vars=vars, bind=bind) for f in forms)
 
 
+def _count_from_unclipped_bounds(fn, ts, appends, defs):
+    """recognised wrong form of the members' report: the count is computed from the BOUNDS of the slices (prod(stop - start) over
+    a list L of slice objects) and not from the send buffer, the send buffer is `A[tuple(L)]` (flattened / real part / copied:
+    size-preserving wrappers only), and a stop stored in L is a GLOBAL end index (`X.ends[i]`, no start subtracted) while the other
+    bounds of L are converted to offsets in the local block (`v - X.starts[i]`).  numpy clips a slice stop that lies past the
+    extent of the axis, so the array that is sent has prod(min(stop, n) - start) elements: fewer than announced on every rank
+    whose block does not start at 0.  -> (diagnosis or None, reason why undecided or None)"""
+    def strip(e):
+        # size-preserving wrappers around the indexing
+        while True:
+            if isinstance(e, ast.Call) and isinstance(e.func, ast.Attribute) and e.func.attr in ("flatten", "ravel", "copy") and not e.args:
+                e = e.func.value
+            elif isinstance(e, ast.Call) and src(e.func) in ("np.real", "np.imag", "np.ascontiguousarray", "np.array", "np.ravel") and \
+                    len(e.args) == 1 and not e.keywords:
+                e = e.args[0]
+            elif isinstance(e, ast.Attribute) and e.attr in ("real", "imag"):
+                e = e.value
+            else:
+                return e
+    lists, arrays = set(), set()
+    for d in defs:
+        v = d.value
+        if isinstance(v, ast.Call) and src(v.func) in ("np.ndarray", "np.empty", "np.zeros") and v.args and src(v.args[0]) in ("0", "(0,)"):
+            continue
+        core_ = strip(v)
+        if not (isinstance(core_, ast.Subscript) and isinstance(core_.slice, ast.Call) and src(core_.slice.func) == "tuple" and
+                len(core_.slice.args) == 1 and isinstance(core_.slice.args[0], ast.Name)):
+            return None, None
+        lists.add(core_.slice.args[0].id)
+        arrays.add(src(core_.value))
+    if len(lists) != 1 or len(arrays) != 1:
+        return None, None
+    L, A = next(iter(lists)), next(iter(arrays))
+    # the announced count: every non-zero report is prod(s.stop - s.start for s in L), possibly wrapped in int(...)
+    seen = False
+    for a in appends:
+        e = a.value.args[0]
+        if isinstance(e, ast.Constant) and e.value == 0:
+            continue
+        if any(isinstance(x, ast.Name) and x.id == ts for x in ast.walk(e)):
+            return None, None
+        while isinstance(e, ast.Call) and src(e.func) in ("int", "np.int64", "np.intp") and len(e.args) == 1:
+            e = e.args[0]
+        if not (isinstance(e, ast.Call) and src(e.func) in ("np.prod", "math.prod", "prod", "np.product") and len(e.args) == 1 and
+                isinstance(e.args[0], (ast.ListComp, ast.GeneratorExp)) and len(e.args[0].generators) == 1):
+            return None, None
+        g = e.args[0].generators[0]
+        if not (isinstance(g.iter, ast.Name) and g.iter.id == L and isinstance(g.target, ast.Name) and not g.ifs):
+            return None, None
+        s_ = g.target.id
+        if src(e.args[0].elt).replace(" ", "") != f"{s_}.stop-{s_}.start":
+            return None, None
+        seen = True
+    if not seen:
+        return None, None
+    shape = (f"the count announced is prod(stop - start) over the slices of `{L}`, computed before `{A}[tuple({L})]` is taken, not the "
+             f"size of `{ts}`")
+    # the bounds stored in L
+    glob, local = [], False
+    for n in ast.walk(fn):
+        if isinstance(n, ast.Call) and isinstance(n.func, ast.Attribute) and n.func.attr == "append" and src(n.func.value) == L and \
+                len(n.args) == 1 and isinstance(n.args[0], ast.Call) and src(n.args[0].func) == "slice" and len(n.args[0].args) == 2:
+            for bnd in n.args[0].args:
+                vals = [d.value for d in _defs_of(fn, bnd.id)] if isinstance(bnd, ast.Name) else [bnd]
+                for v in vals:
+                    if isinstance(v, ast.Subscript) and isinstance(v.value, ast.Attribute) and v.value.attr == "ends" and bnd is n.args[0].args[1]:
+                        glob.append((src(bnd), src(v)))
+                    elif isinstance(v, ast.BinOp) and isinstance(v.op, ast.Sub) and isinstance(v.right, ast.Subscript) and \
+                            isinstance(v.right.value, ast.Attribute) and v.right.value.attr == "starts":
+                        local = True
+    # AUDIT: VIOLATED = (1) no report reads the send buffer and every non-empty one is prod(stop - start) over L; (2) every non-empty
+    # definition of the send buffer is A[tuple(L)] under size-preserving wrappers; (3) the bounds in L are offsets in the local block
+    # (some are converted with `- X.starts[i]`) and (4) a stop in L is bound, on some path, to the global end `X.ends[i]` itself:
+    # that stop exceeds the local extent ends - starts whenever starts > 0 and numpy clips it (a fact of numpy slicing)
+    if glob and local:
+        nm, ge = glob[0]
+        return (f"{shape}; the stop `{nm}` of a slice is the GLOBAL end `{ge}` where a requested range reaches the end of the local block "
+                f"(the other bounds are offsets, `... - starts[i]`) and the code relies on numpy clipping it to the extent of `{A}`: on "
+                "every rank whose block does not start at 0 the announced count is larger than the array passed to Gatherv, so the "
+                "root's recvcounts / displacements differ from what the members send (MPI truncation error or a corrupted figure "
+                "block).  The announced size must be the size of the array actually sent (`toSend.size`)"), None
+    return None, (shape + ": equal only if every stop lies within the extent of the axis (numpy clips a slice, the product of the "
+                  "bounds does not): not established")
+
+
 def b5_gatherv_geometry(chk):
     """the root's receive specification of the variable-count gather matches what the members send: counts = what every member
     reported (gathered on the same communicator to the same root), displacements = their exclusive prefix sums, receive buffer of
@@ -2205,6 +2290,11 @@ def b5_gatherv_geometry(chk):
                     continue
                 ok2 = None
                 break
+            if not ok2 and appends and defs:
+                ok2 = None
+                bad2, und2 = _count_from_unclipped_bounds(fn, ts, appends, defs)
+                if und2 and not bad2:
+                    chk.note("B5 (members): " + und2)
             if ok2 and b.get("_unpack") and b["_unpack"][0] != "last":
                 ok2, bad2 = None, (f"the members append the size of their buffer at the end of the record but the root takes the first entry "
                                    f"(`{b['_unpack'][1]}`) as the count: the counts handed to Gatherv are MPI coordinates")
